@@ -308,3 +308,33 @@ func verifHarness_C16_cleanup() {
 	}
 	verifReach("C16/S4")
 }
+
+// S5 (C13 / C16): an ArduPilot heartbeat arrives on a channel whose outgoing backlog is full (its transport is stalled)
+// and whose writer makes no progress: the reader's call returns all the same - asking for streams never parks the
+// reader of a stalled channel, so its frame event and later frames are still delivered - and the seven requests went
+// through the node's request channel like any other write (where a full queue drops them).
+func verifHarness_C16_request_on_full_backlog() {
+	defer verifPatchClock()()
+	d := verifDialectKind(1)
+	n := verifBareNode(V2, 1, 1)
+	n.Dialect = d
+	n.StreamRequestEnable = true
+	n.StreamRequestFrequency = 4
+	n.dialectRW = &dialect.ReadWriter{Dialect: d}
+	verifAssert(n.dialectRW.Initialize() == nil, "C16/S5/dialect")
+	sr := &nodeStreamRequest{node: n}
+	verifAssert(sr.initialize() == nil, "C16/S5/enabled")
+	verifChanSink(n.chWriteTo)
+	verifChanSink(n.chEvent)
+	ch := verifBareChannel(n)
+	verifChanSymFill(ch.chWrite, 64) // full: nothing drains it
+	evt := &EventFrame{Frame: &frame.V2Frame{SystemID: 9, ComponentID: 1,
+		Message: &minimal.MessageHeartbeat{Autopilot: 3}}, Channel: ch}
+	blocked := verifRunUntilBlocked(func() { sr.onEventFrame(evt) })
+	verifAssert(!blocked, "C16/S5/reader-not-parked-by-a-full-backlog")
+	if !blocked {
+		verifAssert(len(n.chWriteTo) == 7, "C16/S5/requests-go-through-the-node")
+		verifAssert(len(n.chEvent) == 1, "C16/S5/stream-requested-event")
+	}
+	verifReach("C16/S5")
+}
